@@ -52,7 +52,7 @@ func (s *searcher) replay(hist []Event) {
 			pt := w.apply(hist[i-1])
 			s.onTrans(before, w, h, hist[i-1], pt)
 			if pt == "" {
-				s.onState(w, h, false)
+				s.onState(w, h, len(s.succ(w, h, byzCount(h))) == 0)
 			}
 			w.close()
 		}
@@ -133,6 +133,7 @@ type replayHist struct {
 // C04: all honest, exact search
 
 type c04cfg struct {
+	wide    bool // identifiers across the byte boundary (1, 2, 257, ...)
 	sign    bool
 	n       int
 	senders int
@@ -144,6 +145,9 @@ func (k c04cfg) String() string {
 	op := ""
 	if k.sign {
 		op = "sign-"
+	}
+	if k.wide {
+		op += "wide-"
 	}
 	return fmt.Sprintf("%sN%d-%dx%d-f%d", op, k.n, k.senders, k.rounds, k.focus)
 }
@@ -159,6 +163,12 @@ func seq(n int) []uint16 {
 func c04case(k c04cfg) harness.Case {
 	return harness.Case{ID: "c04/" + k.String(), Run: func(c *harness.C) {
 		ids := seq(k.n)
+		if k.wide {
+			ids[len(ids)-1] = 257
+			if len(ids) > 2 {
+				ids[1] = 256
+			}
+		}
 		cfg := rcfg{Sign: k.sign, Participants: ids, Honest: ids, All: ids}
 		var init []Event
 		type bc struct {
@@ -311,6 +321,16 @@ func (b byzcfg) actions() []Event {
 	for _, h := range b.honest {
 		evs = append(evs, Event{Kind: 'B', From: b.byz[0], To: h, Data: mpcPayload(p2pBody(0, 'p'))})
 	}
+	// non-participants also try payloads: nothing of theirs may ever be handed over
+	for _, np := range []uint16{b.outsider, b.unknown} {
+		if np == 0 {
+			continue
+		}
+		for _, h := range b.honest {
+			evs = append(evs, Event{Kind: 'B', From: np, To: h, Data: mpcPayload(p2pBody(0, 'o'))})
+			evs = append(evs, Event{Kind: 'B', From: np, To: h, Data: mpcPayload(bcastBody(b.rounds[0], 'o'))})
+		}
+	}
 	ackers := append([]uint16(nil), b.byz...)
 	if b.outsider != 0 {
 		ackers = append(ackers, b.outsider)
@@ -321,6 +341,9 @@ func (b byzcfg) actions() []Event {
 	for _, a := range ackers {
 		for _, h := range b.honest {
 			abouts := append([]uint16(nil), b.byz...)
+			if b.outsider != 0 && a != b.outsider {
+				abouts = append(abouts, b.outsider)
+			}
 			if b.honestBc && h != b.honest[0] {
 				abouts = append(abouts, b.honest[0])
 			}
@@ -335,6 +358,9 @@ func (b byzcfg) actions() []Event {
 					}
 					if b.honestBc {
 						ds = append(ds, digestOf(bcastBody(r, byte(b.honest[0]))))
+					}
+					if ab == b.outsider {
+						ds = []string{digestOf(bcastBody(r, 'o'))}
 					}
 					if b.junk {
 						ds = append(ds, strings.Repeat("\x07", 32))
@@ -477,10 +503,11 @@ func gen(c *harness.C) []harness.Case {
 	switch prop {
 	case "C04":
 		c.Note("rule", "explicit-state DFS over all delivery orders of in-flight messages of real Schemes (any-order network), dedup on canonical dump of receivers' private state + in-flight multiset + hand-overs; f0 = global exact search, fK = only deliveries to party K branch (others eager). distinct_nontrivial = distinct quiescent histories")
-		global := []c04cfg{{false, 2, 1, 1, 0}, {false, 2, 2, 1, 0}, {false, 2, 1, 2, 0}, {false, 2, 2, 2, 0}, {false, 3, 1, 1, 0}, {false, 3, 2, 1, 0}, {false, 3, 1, 2, 0}, {false, 4, 1, 1, 0},
-			{true, 2, 2, 2, 0}, {true, 3, 1, 1, 0}, {true, 3, 2, 1, 0}}
+		global := []c04cfg{{sign: false, n: 2, senders: 1, rounds: 1}, {sign: false, n: 2, senders: 2, rounds: 1}, {sign: false, n: 2, senders: 1, rounds: 2}, {sign: false, n: 2, senders: 2, rounds: 2}, {sign: false, n: 3, senders: 1, rounds: 1}, {sign: false, n: 3, senders: 2, rounds: 1}, {sign: false, n: 3, senders: 1, rounds: 2}, {sign: false, n: 4, senders: 1, rounds: 1},
+			{sign: true, n: 2, senders: 2, rounds: 2}, {sign: true, n: 3, senders: 1, rounds: 1}, {sign: true, n: 3, senders: 2, rounds: 1},
+			{wide: true, n: 3, senders: 2, rounds: 1}, {wide: true, n: 2, senders: 2, rounds: 2}}
 		if c.Thorough() {
-			global = append(global, c04cfg{false, 3, 2, 2, 0}, c04cfg{false, 4, 2, 1, 0}, c04cfg{false, 4, 1, 2, 0}, c04cfg{false, 5, 1, 1, 0}, c04cfg{true, 3, 1, 2, 0}, c04cfg{true, 4, 1, 1, 0})
+			global = append(global, c04cfg{n: 3, senders: 2, rounds: 2}, c04cfg{n: 4, senders: 2, rounds: 1}, c04cfg{n: 4, senders: 1, rounds: 2}, c04cfg{n: 5, senders: 1, rounds: 1}, c04cfg{sign: true, n: 3, senders: 1, rounds: 2}, c04cfg{sign: true, n: 4, senders: 1, rounds: 1}, c04cfg{wide: true, n: 4, senders: 1, rounds: 1})
 		}
 		for _, k := range global {
 			cases = append(cases, c04case(k))
@@ -489,13 +516,13 @@ func gen(c *harness.C) []harness.Case {
 		for _, n := range []int{3, 4} {
 			for _, sr := range [][2]int{{2, 1}, {1, 2}, {2, 2}} {
 				for f := 1; f <= n; f++ {
-					focus = append(focus, c04cfg{false, n, sr[0], sr[1], uint16(f)})
+					focus = append(focus, c04cfg{n: n, senders: sr[0], rounds: sr[1], focus: uint16(f)})
 				}
 			}
 		}
 		if c.Thorough() {
 			for f := 1; f <= 5; f++ {
-				focus = append(focus, c04cfg{false, 5, 1, 1, uint16(f)}, c04cfg{false, 5, 2, 1, uint16(f)}, c04cfg{false, 5, 2, 2, uint16(f)})
+				focus = append(focus, c04cfg{n: 5, senders: 1, rounds: 1, focus: uint16(f)}, c04cfg{n: 5, senders: 2, rounds: 1, focus: uint16(f)}, c04cfg{n: 5, senders: 2, rounds: 2, focus: uint16(f)})
 			}
 		}
 		for _, k := range focus {
